@@ -676,3 +676,22 @@ impl LuaIndex for LuaModuleIndex {
         self.module_nodes.insert(self.module_root_id, root_node);
     }
 }
+
+/// Entry counts of every map of this index (verification hook, add-only, off by default).
+#[cfg(feature = "verif")]
+impl LuaModuleIndex {
+    pub fn verif_sizes(&self) -> Vec<(String, usize)> {
+        let p = "module";
+        let mut v: Vec<(String, usize)> = Vec::new();
+        let mut put = |name: &str, n: usize| v.push((format!("{p}.{name}"), n));
+        put("module_nodes", self.module_nodes.len());
+        put("module_nodes.children", self.module_nodes.values().map(|n| n.children.len()).sum());
+        put("module_nodes.file_ids", self.module_nodes.values().map(|n| n.file_ids.len()).sum());
+        put("file_module_map", self.file_module_map.len());
+        put("module_name_to_file_ids", self.module_name_to_file_ids.len());
+        put("module_name_to_file_ids.items", self.module_name_to_file_ids.values().map(|s| s.len()).sum());
+        put("workspaces", self.workspaces.len());
+
+        v
+    }
+}
